@@ -138,7 +138,8 @@ pub fn check_pair_with(out: &mut Out, src: &str, c0: &Ctx, ctx_desc: String, reu
             return;
         },
     };
-    let mut fresh = Ctx::new();
+    // "a fresh empty context": a new one, or one whose earlier bindings (of other types) were cleared
+    let mut fresh = if src.len() % 2 == 0 { Ctx::new() } else { api::used_then_cleared(&[], src.len() % 4 == 1) };
     let base_free = match guard(|| evalexpr::eval_with_context_mut(src, &mut fresh)) {
         Ok(r) => r,
         Err(p) => {
